@@ -27,6 +27,9 @@ IsReport(e) == e.kind = "file" /\ e.loc \in {"local", "upload"} /\ HasSuffix(e.n
 IsData(e) == IsCounterFile(e) \/ IsReport(e)
 
 Commands == {"clean", "on", "local", "off", "env"}
+(* command lines the tool must refuse (the commands take no arguments; unknown  *)
+(* command): nothing changes                                                    *)
+BadCommands == {"clean all", "on now", "local x", "off x", "env x", "purge"}
 
 (* state: [tree, modeFile];  effect of a command run on day `today`          *)
 CleanStep(s) == [s EXCEPT !.tree = {e \in s.tree : ~IsData(e)}]
